@@ -5,7 +5,9 @@ import hirutil as H
 from core import load_table
 
 LEVEL = 'other'
-TECHNIQUE = 'who-may-call scan of MIR callees (file-system effects), decision-table check of the path-component filter, lexical dominance/order and value provenance over typed HIR'
+TECHNIQUE = ('who-may-call scan of MIR callees (file-system effects), decision-table check of the path-component filter, lexical dominance/order and value '
+             'provenance over typed HIR, path enumeration of generate_ui_file (every successful path writes each output or compares it equal), '
+             'provenance of the type name back to the file stem of the path as given')
 LEVEL_TEXT = ('Decides the structural necessary conditions of the property on every path of the CLI: which functions may create or modify '
               'files (only with_output_file), that the path filter admits only CurDir/Normal components of every source and rejects before '
               'anything is read or written, that the temp file is created in the destination directory and persisted (rename) last, after '
